@@ -117,7 +117,7 @@ def plain_entries(root):
 
 def run(ctx):
     quick = ctx.tier == "quick"
-    ntrees = 14 if quick else 150
+    ntrees = 14 if quick else 1500
     scratch = common.new_scratch()
     try:
         for t in range(ntrees):
